@@ -607,11 +607,13 @@ theorem l_doRegister (st : St) (k : Int) (reg : St → St × Nat) (h : ∀ s, LS
     · exact (h st).trans (g4_with_slots _ _).lstep
 
 
+theorem g4_with_cancelReq (st : St) (l : List Int) : G4 st { st with cancelReq := l } := G4.of_eq rfl rfl rfl rfl rfl rfl rfl
+
 theorem l_doCancel (st : St) (k : Int) : LStep st (doCancel st k) := by
   unfold doCancel
   split
   · exact (g4_emit _ _).lstep
-  · exact l_watchCancel _ _
+  · exact (g4_with_cancelReq _ _).lstep.trans (l_watchCancel _ _)
 
 
 theorem l_runAct (st : St) (act : Act) : LStep st (runAct st act) := by
